@@ -10,7 +10,7 @@ Late(b) == [budget |-> b, kind |-> "all", n |-> 0, j |-> 0, sync |-> FALSE, roun
 Init == s \in {Mk(b, "all", 0, 0, sy) : b \in 0..MaxBudget, sy \in BOOLEAN}
          \cup {Mk(b, "stop_after", n, 0, sy) : b \in 0..MaxBudget, n \in 1..2, sy \in BOOLEAN}
          \cup {Mk(b, "only_retx", 0, j, sy) : b \in 1..MaxBudget, j \in 2..(MaxBudget + 1), sy \in BOOLEAN}
-         \cup {Mk(b, k, 0, 0, FALSE) : b \in 0..MaxBudget, k \in {"fail", "none", "noresult"}}
+         \cup {Mk(b, k, 0, 0, FALSE) : b \in 0..MaxBudget, k \in {"fail", "none", "noresult", "wfail_none"}}
          \cup {Mk(b, "dup", 0, 0, sy) : b \in 0..MaxBudget, sy \in BOOLEAN}
          \cup {Mk(b, "multi_stop", n, j, sy) : b \in 0..MaxBudget, n \in 1..2, j \in 2..4, sy \in BOOLEAN}
          \cup {Late(b) : b \in 0..1}
